@@ -54,6 +54,7 @@ type AnteCase struct {
 	Prices   [][2]string `json:"gas_prices,omitempty"` // settlement gas price parameter (denom, Dec), empty = default
 	Q        string      `json:"oracle_fee,omitempty"`
 	ExpectFail bool      `json:"expect_fail,omitempty"` // the actor is not an admin: the (admitted) messages fail in their handler
+	FirstBlock bool      `json:"first_block,omitempty"` // deliver the transaction in the first block after genesis (no base history)
 }
 
 const anteSalt = "ABCD"
@@ -361,6 +362,11 @@ func GenAnteCase(seed uint64, idx int) AnteCase {
 			c.Actor = roleStranger
 		}
 	}
+	// shapes that need nothing from the base state are also delivered in the very first block after genesis
+	// (height 1, the block whose header has no last block id yet)
+	if !hasKind(c.Msgs, func(k string) bool { return k != "send" && k != "create_validator" && k != "exec" }) && r.Chance(40) {
+		c.FirstBlock = true
+	}
 	// settlement-only transactions are charged the fixed fee; offer it (plus a surplus sometimes)
 	allS := len(c.Msgs) > 0
 	for _, m := range c.Msgs {
@@ -534,6 +540,9 @@ func settleDigest(e *Exec) string {
 
 func runAnteCase(c AnteCase) (*Exec, *anteExec, AnteObs, string) {
 	h := anteBaseHistory()
+	if c.FirstBlock {
+		h.Events = []Event{{Kind: "begin"}}
+	}
 	e, pi := NewExec(h)
 	if pi != nil {
 		panic("ante base genesis: " + pi.Msg)
